@@ -45,7 +45,8 @@ def const_writes(ctx, s, fn, out, base=0, depth=0):
         callee = info["callee"] or ""
         nm = s.nice(callee)
         base_name = (info["base"] or "").rsplit("::", 1)[-1]
-        if base_name == "copy_from_slice":
+        if base_name in ("copy_from_slice", "clone_from_slice", "fill", "fill_with", "copy_within", "swap_with_slice") or \
+                (callee.startswith("core::slice::") and callee.rsplit("::", 1)[-1] in ("fill", "copy_from_slice", "clone_from_slice")):
             r = rel(info["args"][0])
             if r and r[1] is not None:
                 res.append((base + r[0], base + r[1], [b]))
